@@ -249,6 +249,8 @@ class LoopCtx:
     def __init__(self, ex, k, seq, entry_env, entry_heap):
         self.ex, self.k, self.seq = ex, k, seq
         self._entry_env, self._entry_heap = entry_env, entry_heap
+        # the enclosing loop's context (its index k / sequence) while its body is being executed
+        self.outer = ex.loop_stack[-1] if getattr(ex, "loop_stack", None) else None
 
     def v(self, name):
         return self.ex.env.get(name)
@@ -380,6 +382,10 @@ class Exec:
         return unflatten(self.field_shape(name), [z3.Select(a, obj.ref) for a in arrs])
 
     def write_field(self, obj, name, value):
+        if isinstance(obj, OptV):
+            if self.decide(obj.isnone):
+                raise RaiseEx("AttributeError", getattr(self, "cur_line", 0))
+            obj = obj.val
         if not isinstance(obj, ObjV):
             raise Unsupported(f"field write .{name} on {type(obj).__name__}")
         arrs = self.heap_arrays(name)
@@ -410,6 +416,7 @@ class Exec:
         self.materialized = {}
         self.in_comprehension = 0
         self.fresh_facts = set()
+        self.loop_stack = []
         self.hyps = []
         self.heap = {}
         self.heap0 = {}
@@ -562,6 +569,14 @@ class Exec:
         from .builtins import EmptySet, empty_seq, empty_set, empty_map
         from . import types as T
 
+        ltyp = self.fctx.locals.get(name)
+        if isinstance(ltyp, T.OPT):
+            # a local declared Optional: None / plain values are stored in the (isnone, value) form
+            if v is NONE:
+                return OptV(z3.BoolVal(True), ltyp.inner.fresh(name + ".none"))
+            if not isinstance(v, OptV):
+                return OptV(z3.BoolVal(False), v)
+            return v
         if isinstance(v, NoneList):
             typ = self.fctx.locals.get(name)
             if not (isinstance(typ, T.SEQ) and isinstance(typ.elem, T.OPT)):
@@ -747,12 +762,15 @@ class Exec:
             self.assume(z3.And(k >= 0, k < seq.n))
             self.assume_inv(inv, LoopCtx(self, k, seq, entry_env, entry_heap))
             self.assign(s.target, seq.get(k))
+            self.loop_stack.append(LoopCtx(self, k, seq, entry_env, entry_heap))  # L.outer of inner loops
             try:
                 self.exec_block(s.body)
             except ContinueEx:
                 pass
             except BreakEx:
+                self.loop_stack.pop()
                 return  # continue after the loop with the state at the break (no orelse)
+            self.loop_stack.pop()
             self.check_inv(inv, LoopCtx(self, k + 1, seq, entry_env, entry_heap), lid, "preserve")
             self.frame_check_segment(entry_heap, lid)
             raise PathEnd()
@@ -889,6 +907,10 @@ class Exec:
     def getattr(self, base, attr, node=None):
         from .builtins import MODULE_ATTRS
 
+        from .builtins import SuperV
+
+        if isinstance(base, SuperV):
+            return BoundMethod(base.obj, "super." + attr)
         if isinstance(base, ModV):
             key = f"{base.name}.{attr}"
             if key in MODULE_ATTRS:
@@ -1091,6 +1113,13 @@ class Exec:
         if isinstance(op, (ast.In, ast.NotIn)):
             r = self.contains(b, a, node)
             return z3.Not(r) if isinstance(op, ast.NotIn) else r
+        if isinstance(a, OptV) or isinstance(b, OptV):
+            # ordering against a maybe-None value: None raises TypeError
+            for v in (a, b):
+                if isinstance(v, OptV) and self.decide(v.isnone):
+                    raise RaiseEx("TypeError", getattr(node, "lineno", 0))
+            a = a.val if isinstance(a, OptV) else a
+            b = b.val if isinstance(b, OptV) else b
         x, y = to_num(a), to_num(b)
         if x.is_int() != y.is_int():
             x, y = to_real(x), to_real(y)
@@ -1154,6 +1183,13 @@ class Exec:
             return z3.Select(container.dom, coerce_key(self, x, key_sort(container.kshape)))
         if isinstance(container, EmptySeq):
             return z3.BoolVal(False)
+        if isinstance(container, SeqV) and isinstance(container.shape, ObjShape):
+            if isinstance(x, ObjV):
+                return self.seq_mem(container, x.ref)  # identity (no __eq__ override is modelled)
+            if getattr(container, "by_name", False) or container.shape.cls in self.prop.by_name_lists:
+                # EvalableList: `key in lst` with a str key is a lookup by element name
+                return self.by_name_exists(container, x)
+            return z3.BoolVal(False)  # a str / number never equals a model object
         if isinstance(container, SeqV):
             if isinstance(container.n, z3.IntNumRef) and container.n.as_long() <= 8:
                 return z3.Or(*[self.equal(container.get(z3.IntVal(i)), x) for i in range(container.n.as_long())])
@@ -1166,6 +1202,44 @@ class Exec:
         if isinstance(container, ObjV):
             return self.truth(self.call_method(container, "__contains__", [x], {}, node))
         raise Unsupported(f"'in' on {type(container).__name__}")
+
+    # ---- EvalableList: lookup by element name (model = the verified contract of
+    #      EvalableList.__getitem__ / __contains__ for str keys; names are distinct) ----------
+    def by_name_index(self, seq, names=None):
+        (a,) = arrs_of(self.materialize(seq))
+        names = self.heap_arrays("name")[0] if names is None else names
+        f = z3.Function("by_name_index", a.sort(), z3.IntSort(), V.Elem, names.sort(), z3.IntSort())
+        return lambda key: f(a, seq.n, key, names)
+
+    def by_name_exists(self, seq, key, names=None):
+        """`key` names an element of the list, w.r.t. the `name` field of the current heap (or of
+        the given names array).  Both the predicate and the index function take the names array
+        as an argument, so facts about different heaps never interfere."""
+        seq = self.materialize(seq)
+        (a,) = arrs_of(seq)
+        key = coerce(key, V.Elem)
+        names = self.heap_arrays("name")[0] if names is None else names
+        e = z3.Function("by_name_exists", a.sort(), z3.IntSort(), V.Elem, names.sort(), z3.BoolSort())
+        fi = z3.Function("by_name_index", a.sort(), z3.IntSort(), V.Elem, names.sort(), z3.IntSort())
+        atom = e(a, seq.n, key, names)
+        k = ("byname", a.get_id(), seq.n.get_id(), names.get_id())
+        if k not in self.seq_mem_done:
+            self.seq_mem_done.add(k)
+            j = z3.Const(fresh_name("bj"), z3.IntSort())
+            y = z3.Const(fresh_name("by"), V.Elem)
+            iy = fi(a, seq.n, y, names)
+            # exists(key) -> the index function points at an element with that name
+            self.assume(V.qforall([y], z3.Implies(e(a, seq.n, y, names), z3.And(iy >= 0, iy < seq.n, z3.Select(names, z3.Select(a, iy)) == y)), patterns=[e(a, seq.n, y, names)]))
+            # every element's name exists
+            self.assume(V.qforall([j], z3.Implies(z3.And(j >= 0, j < seq.n), e(a, seq.n, z3.Select(names, z3.Select(a, j)), names)), patterns=[z3.Select(a, j)]))
+        return atom
+
+    def by_name_get(self, seq, key, node=None):
+        seq = self.materialize(seq)
+        key = coerce(key, V.Elem)
+        if not self.decide(self.by_name_exists(seq, key)):
+            raise RaiseEx("KeyError", self.cur_line)
+        return seq.get(self.by_name_index(seq)(key))
 
     def truth(self, v):
         v = lift(v)
@@ -1225,6 +1299,10 @@ class Exec:
             if isinstance(idx, z3.IntNumRef):
                 return base.items[idx.as_long()]
             raise Unsupported("symbolic index into a tuple")
+        if isinstance(base, SeqV) and isinstance(base.shape, ObjShape) and (isinstance(idx, StrV) or (is_z3(idx) and idx.sort() == V.Elem)):
+            if getattr(base, "by_name", False) or base.shape.cls in self.prop.by_name_lists:
+                return self.by_name_get(base, idx, node)  # EvalableList[str]
+            raise RaiseEx("TypeError", self.cur_line)  # list indices must be integers
         if isinstance(base, SeqV):
             if isinstance(idx, tuple) and idx[0] == "slice":
                 lo = to_num(idx[1]) if idx[1] is not None else z3.IntVal(0)
@@ -1375,10 +1453,16 @@ class Exec:
             raise Unsupported(f"construction of {cls.name}")
         obj = self.new_object(cls.name)
         names = list(spec)
-        for nm, v in list(zip(names, args)) + list(kwargs.items()):
+        given = dict(list(zip(names, args)) + list(kwargs.items()))
+        for nm, v in given.items():
             if nm not in spec:
                 raise Unsupported(f"{cls.name}({nm}=...)")
             self.write_field(obj, nm, v)
+        for nm, dv in self.prop.record_defaults.get(cls.name, {}).items():
+            if nm not in given:
+                self.write_field(obj, nm, dv(self) if callable(dv) else dv)
+        if self.prop.class_tag is not None:
+            self.assume(self.prop.class_tag(obj.ref) == self.prop.class_id(cls.name), fresh=True)
         return obj
 
     def call_method(self, recv, name, args, kwargs, node):
